@@ -14,16 +14,16 @@ T = {
     "C01": ("runtime postconditions on ConvexPolyhedron getters vs. qhull-free facet oracle + signed-tetrahedron integrals (exact rationals on lattice input; integer-arithmetic facts for exactly representable needles, plates and nearly coplanar facets and solids 1e-12..4e-6 off a symmetric position, judged at 1e-12), on new objects and on objects with a public history of reads, resizes and moves",
             "4.C01"),
     "C02": ("runtime postconditions on Polyhedron getters vs. closed forms of voxel solids/extrusions and signed-tetrahedron integrals, near the origin and 100..3000 diameters away (judged by the accuracy law measured there), faces in seven index types, on new objects and on objects with a public history (resizes, moves, diagonalize_inertia, to_hoomd)", "4.C02"),
-    "C03": ("class invariant evaluated after every mutating call: fingerprint of the mutated object == fingerprint of a freshly constructed one; exception-atomicity monitor; exhaustive depth-bounded operation sequences + random walks; solids already in their principal axes (six orders of the moments) under diagonalize_inertia",
+    "C03": ("class invariant evaluated after every mutating call: fingerprint of the mutated object == fingerprint of a freshly constructed one (also for a twin built from the same argument objects); exception-atomicity monitor; exhaustive depth-bounded operation sequences + random walks; solids already in their principal axes (six orders of the moments) under diagonalize_inertia",
             "4.C03"),
     "C04": ("runtime postconditions on Polygon getters vs. Gram-Schmidt-frame shoelace integrals (exact rationals on lattice polygons), on new objects and on objects with a public history of reads, resizes and moves", "4.C04"),
     "C05": ("runtime postcondition on is_inside of the 3-D classes vs. independent membership oracles with boundary-band exclusion; batch-vs-single relational check; integer, default and tuple centres with whole-number lattice queries; new objects and objects with a public history (reads, resizes, semi-axis/radius assignments, moves, reorientation)", "4.C05"),
-    "C06": ("runtime postcondition on is_inside of the 2-D classes vs. crossing-number / quadratic-form oracles with boundary-band exclusion; batch-vs-single relational check; integer, default and tuple centres with whole-number lattice queries; new objects and objects with a public history", "4.C06"),
+    "C06": ("runtime postcondition on is_inside of the 2-D classes vs. crossing-number / quadratic-form oracles with boundary-band exclusion; batch-vs-single relational check; integer, default and tuple centres with whole-number lattice queries; (N,2) points on the trace of tilted polygons; new objects and objects with a public history", "4.C06"),
     "C07": ("structural postconditions on constructed ConvexPolyhedron / sorted+merged Polyhedron vs. qhull-free facet oracle (integer-arithmetic facets for exactly representable solids whose facets are 1e-11..1e-4 rad from coplanar or whose aspect is 2^10..2^20); edge list / count / Euler relation also on the general Polyhedron (faces in seven index types) after sort_faces and merge_faces; faces planar only up to rounding resolved by the exact integer hull; re-judged after public histories", "4.C07"),
     "C08": ("before/after monitor around every reflected property setter: read-back, least-squares similarity fit, refusal of bad targets; bases of unit size, in nano/mega units and with 0-d array parameters", "4.C08"),
     "C09": ("relational monitor over recorded executions: queries on g(input) vs. g applied to queries on input", "4.C09"),
     "C10": ("runtime postconditions on getters of Circle/Ellipse/Sphere/Ellipsoid vs. closed-form integrals and mpmath (Carlson R_G, E(m), quadrature), centred moments judged relative to themselves, on fresh objects and across set-then-read histories", "4.C10"),
-    "C11": ("runtime postconditions on spheropolytope and ConvexPolyhedron curvature getters vs. Steiner formulas evaluated on oracle A,P,V,S,M of the current core, explicit normals of any length on either side, on fresh objects and across read-change-read histories (own and core setters)", "4.C11"),
+    "C11": ("runtime postconditions on spheropolytope and ConvexPolyhedron curvature getters vs. Steiner formulas evaluated on oracle A,P,V,S,M of the current core, explicit normals of any length on either side, on fresh objects and across read-change-read histories (own and core setters, diagonalize_inertia, to_hoomd)", "4.C11"),
     "C12": ("runtime postcondition on compute_form_factor_amplitude vs. 400-digit mpmath simplex Fourier transforms; relational symmetry/phase/batch checks; evaluate-resize/move-evaluate histories; integer wave vectors, memory layouts, all-special batches with a density, spheres in extreme units", "4.C12"),
     "C13": ("runtime postconditions on the ball properties vs. brute-force smallest enclosing ball, exact centroid and face/edge distances; existence by construction; several global RNG states; axis-aligned balanced shapes without point symmetry; new objects and objects with a public history", "4.C13"),
     "C14": ("runtime postcondition on distance_to_surface vs. ray/boundary intersection oracle; float, integer, list and tuple angle arguments; argument-unchanged monitor; integer, default and tuple centres; new objects and objects with a public history", "4.C14"),
@@ -32,7 +32,7 @@ T = {
     "C17": ("postcondition on family get_shape/make_vertices vs. independent half-space intersection oracle; every admissible n; integer-typed parameters in five call forms; get - caller mutates result - get again histories", "4.C17"),
     "C18": ("exhaustive enumeration of all tabulated entries under monitors vs. textbook reference table; interleaved/resumed iteration histories; get - mutate - get again; names of one family asked of every other family before and after the owner was asked; unknown names wrapped in mark-up characters", "4.C18"),
     "C19": ("round-trip monitors on gsd_shape_spec/from_gsd_type_shapes, repr/eval, to_json, to_hoomd, each taken up to three times from the same object, with public setters applied between the rounds; to_hoomd vertices must be the shape's own minus its centroid", "4.C19"),
-    "C20": ("independent strict parsers observing files written by coxeter.io / Polyhedron.save, for new shapes (faces in seven index types) and shapes exported after a public history", "4.C20"),
+    "C20": ("independent strict parsers observing files written by coxeter.io / Polyhedron.save, for new shapes (faces in seven index types), under changed process-wide NumPy print options, and for shapes exported after a public history", "4.C20"),
 }
 
 NOTE = ("Held on the executions the workload produced (counts in the evidence file), never 'verified'. Trusted base: "
